@@ -26,6 +26,8 @@ GCC = os.environ.get('VERIF_GCC', 'gcc')
 
 MAXSLOT = 48
 MAXT = 16
+PROBE_Q = ['len', 'cint', 'cflt', 'cstr', 'hash', 'cmp', 'asg', 'get', 'mem', 'set', 'rem', 'push', 'pop', 'pushat',
+           'popat', 'cat', 'app', 'ref', 'iter', 'cur', 'cast', 'size', 'fmt', 'fmt2', 'copy']
 LCM = 5 * 11 * 23 * 53          # keys k*LCM collide in every small Table size
 WORDS = ['', 'a', 'b', 'ab', 'ba', 'abc', 'x', 'y', 'zz', 'K0', 'K1', 'key', 'Key', 'val', 'Q_1', 'hello', 'world', '0', '00', '9z', 'AaAa', 'BBBB']
 
@@ -212,6 +214,8 @@ class Gen:
             if x is None: return
             o = self.s[x]; v = self.val(o['ty']); o['data'] = v; self.emit('vset', x, v)
         elif op == 'tuple': self.tuple_op()
+        elif op == 'probe': self.probe_op()
+        elif op == 'ring': self.ring_op()
         elif op == 'exc':
             if r.random() < 0.5: self.emit('exc', r.randrange(0, 6))
             else: self.emit('nest', r.randrange(0, 6), r.randrange(0, 6))
@@ -247,6 +251,17 @@ class Gen:
                 c = self.pick(lambda v: seq(v) and v['ty'] == 'I')
                 if c is not None: self.emit('map', c, r.randrange(-5, 6))
             else: self.emit('gc')
+    def probe_op(self, cold=False):
+        """method-cache probe: queries in a random order on one of three probe types (cold: every query kind, permuted)"""
+        r = self.r; t = r.randrange(3)
+        if cold: qs = r.sample(PROBE_Q, len(PROBE_Q))
+        else: qs = [r.choice(PROBE_Q) for _ in range(r.randrange(1, 9))]
+        if not cold and r.random() < 0.25: self.emit('preset', t)
+        self.emit('probe', t, r.randrange(-50, 50), *qs)
+    def ring_op(self):
+        """Boxes owning each other, dropped, then allocation work so that the collector meets them"""
+        r = self.r
+        self.emit('ring', r.choice([1, 2, 2, 3, 5, 8]), r.randrange(-100, 100), r.choice([0, 20, 60, 150]))
     def tuple_op(self):
         r = self.r
         vals = lambda ty: [k for k, v in self.s.items() if v['kind'] == 'val' and v['ty'] == ty]
@@ -318,12 +333,12 @@ class Gen:
         else: self.emit('del', dead)
 
 PROFILES = {
-    'mixed':  dict(new=10, kill=6, push=14, pop=8, read=12, set=5, sort=3, mset=12, mread=9, mrem=5, copy=4, concat=2, resize=1, cmp=4, vset=2, exc=2, tonly=8, tuple=8),
-    'seq':    dict(new=6, kill=3, push=30, pop=16, read=14, set=8, sort=6, copy=3, concat=4, resize=2, cmp=4, tonly=6, exc=1),
-    'map':    dict(new=5, kill=2, mset=40, mread=20, mrem=18, copy=3, tonly=2, exc=1),
-    'churn':  dict(new=30, kill=26, copy=12, push=6, mset=6, read=4, mread=4, vset=4, tonly=6, exc=2, tuple=14, _drop=0.6),   # allocation pressure: collector at work
-    'views':  dict(new=8, kill=3, push=14, pop=4, tonly=50, read=6, vset=4, exc=6, cmp=4),
-    'tuples': dict(new=10, kill=4, vset=6, tuple=60, tonly=4, exc=2, copy=3, _drop=0.3),   # heap Tuples whose items only the Tuple references
+    'mixed':  dict(probe=3, ring=1, new=10, kill=6, push=14, pop=8, read=12, set=5, sort=3, mset=12, mread=9, mrem=5, copy=4, concat=2, resize=1, cmp=4, vset=2, exc=2, tonly=8, tuple=8),
+    'seq':    dict(probe=1, ring=1, new=6, kill=3, push=30, pop=16, read=14, set=8, sort=6, copy=3, concat=4, resize=2, cmp=4, tonly=6, exc=1),
+    'map':    dict(probe=1, ring=1, new=5, kill=2, mset=40, mread=20, mrem=18, copy=3, tonly=2, exc=1),
+    'churn':  dict(probe=3, ring=4, new=30, kill=26, copy=12, push=6, mset=6, read=4, mread=4, vset=4, tonly=6, exc=2, tuple=14, _drop=0.6),   # allocation pressure: collector at work
+    'views':  dict(probe=8, ring=1, new=8, kill=3, push=14, pop=4, tonly=50, read=6, vset=4, exc=6, cmp=4),
+    'tuples': dict(probe=2, ring=2, new=10, kill=4, vset=6, tuple=60, tonly=4, exc=2, copy=3, _drop=0.3),   # heap Tuples whose items only the Tuple references
 }
 
 class C18(Spec):
@@ -346,7 +361,8 @@ class C18(Spec):
     rule = ('workloads: op files of 250-600 public-API operations over <=48 objects (Int, String, Array, List, Table, Tree, heap Tuple; push/pop/insert/'
             'remove/get/set/mem/len/sort/copy/concat/resize/compare, map set/get/rem/mem, iteration both ways, caught and nested '
             'exceptions; transcript-only: hash, show, print_to formats, Float, range/slice/reverse/enumerate/zip/filter/map views, forced '
-            'collections, heap Tuples whose items only the Tuple references), six profiles (mixed, sequences, maps with colliding keys, '
+            'collections, heap Tuples whose items only the Tuple references, probe types implementing 17 of the 18 cached classes queried in '
+            'random orders cold and warm, dropped rings of Boxes owning each other followed by allocation churn), six profiles (mixed, sequences, maps with colliding keys, '
             'allocation churn with dropped objects, views, tuples), ~2% '
             'deliberately out-of-contract operations that every build and the model must refuse identically. Each file runs on the default '
             'build + Lean driver (O lines compared) and on every build of the matrix (O and T lines compared byte for byte with the default '
@@ -372,6 +388,9 @@ class C18(Spec):
             prof = names[i % len(names)]
             g = Gen(rng, PROFILES[prof], ooc=0.02 if i % 3 else 0.0)
             length = rng.randrange(250, 600)
+            # prologue: each probe type queried cold in its own random order; one or two owning rings dropped early
+            for _ in range(3): g.probe_op(cold=True)
+            for _ in range(rng.randrange(1, 3)): g.ring_op()
             for _ in range(length): g.step()
             c = Case(f'{prof}{i}b{boost}', g.lines)
             cs.append(c); self._cases[c.name] = c
